@@ -119,7 +119,7 @@ def conclude(ctx, prop, results, wall):
                    "counterexample": found_input, "replayed_on_real_code": bool(f.get("replayed")) or (found_input is not None and f.get("search") is not None),
                    "replay": f.get("replay")}
         rp = write_replay(ctx, f["obligation"], payload)
-        if f.get("counterexample") is not None and not f.get("replayed"):
+        if f.get("counterexample") is not None and f.get("replayed") is False:
             # a solver counterexample that does not reproduce on the real code is a tool/harness problem
             undecided.append({"unit": f["unit"], "undecided_reason": "counterexample for %s did not reproduce on the real code" % f["obligation"]})
             continue
@@ -141,7 +141,8 @@ def conclude(ctx, prop, results, wall):
     ev = {
         "property_id": pid, "tier": ctx.tier, "seed": ctx.seed, "level": "proof",
         "coverage": {
-            "obligations": obligations, "discharged": discharged,
+            "obligations": obligations - n_known_obl, "discharged": discharged,
+            "refuted_known_findings": n_known_obl,
             "checker_cmd": " ; ".join(c for c in cmds if c),
             "trusted_base": t2,
             "samples": samples[:12],
@@ -163,7 +164,7 @@ def conclude(ctx, prop, results, wall):
     for l in lines:
         print(l)
     for f, rp, inp in violations:
-        tail = "" if (inp is not None or f.get("replayed")) else " no-failing-input-found"
+        tail = "" if (inp is not None or f.get("replayed") or f.get("counterexample") is not None) else " no-failing-input-found"
         print("VIOLATION property=%s replay=%s%s" % (pid, rp, tail))
         print("  obligation %s failed: %s" % (f["obligation"], f.get("message")))
     if violations:
